@@ -44,6 +44,7 @@ type Finding struct {
 	PkgDir     string
 	Replay     func(dir string) (reproduced bool, detail string) // custom replay
 	Test       string // native replay test name (default TestVerifReplay)
+	Instr      []SrcInsert
 }
 
 func (f Finding) Signature() string {
@@ -143,7 +144,7 @@ func runCheck(p *PropCheck, tier string) int {
 	for _, j := range jobs {
 		seen := map[string]int{}
 		for _, v := range j.res.Violations {
-			f := Finding{Obligation: j.ID, Kind: v.Kind, Msg: v.Msg, Inputs: v.Extra["inputs"], Entry: j.Entry, PkgDir: j.Pkg, Test: j.ReplayTest}
+			f := Finding{Obligation: j.ID, Kind: v.Kind, Msg: v.Msg, Inputs: v.Extra["inputs"], Entry: j.Entry, PkgDir: j.Pkg, Test: j.ReplayTest, Instr: j.ReplayInstr}
 			if v.Kind == "panic" || v.Kind == "blocked" || v.Kind == "alloc" || v.Kind == "hang" {
 				f.Msg = stripSite(v.Msg)
 				f.Fn = v.Site
@@ -326,6 +327,25 @@ func replayFinding(p *PropCheck, f Finding) (bool, string, string) {
 	ov := harnessOverlay([]string{f.PkgDir})
 	for k, v := range harnessTestOverlay([]string{f.PkgDir}) {
 		ov[k] = v
+	}
+	for _, ins := range f.Instr {
+		src, err := os.ReadFile(filepath.Join(repoDir(), ins.File))
+		if err != nil {
+			return false, "cannot instrument " + ins.File, dir
+		}
+		lines := strings.Split(string(src), "\n")
+		done := false
+		for i, l := range lines {
+			if strings.Contains(l, ins.Anchor) {
+				lines = append(lines[:i+1], append([]string{ins.Text}, lines[i+1:]...)...)
+				done = true
+				break
+			}
+		}
+		if !done {
+			return false, "replay anchor not found in " + ins.File + " (source changed)", dir
+		}
+		ov[filepath.Join(repoDir(), ins.File)] = []byte(strings.Join(lines, "\n"))
 	}
 	repl := map[string]string{}
 	pkgName := ""
